@@ -60,6 +60,9 @@ def cases(tier, seed):
     for d, B in itertools.product(("G5nm", "G5mm"), (0.2,) if quick else fields):
         for tol in (1e-3,) if quick else tols:
             out.append(dict(fam="run", dev=d, B=B, tol=tol, ab=0, maxit=1000))
+    # thermalisation first: iterations of both stages are judged; the recorded stage starts from the thermalised state
+    for d, tol in itertools.product(("G1s", "G5"), (1e-2, 1e-3) if quick else tols):
+        out.append(dict(fam="run", dev=d, B=0.5, tol=tol, ab=0, maxit=1000, thermal=True))
     for d in ("G1s", "G5"):
         out.append(dict(fam="off", dev=d, B=0.6))
     # field sweeps: each run is seeded with the converged solution of the previous field; every solution the caller still
@@ -193,17 +196,25 @@ def run_run(case):
     opts = tdgl.SolverOptions(
         solve_time=nsteps * dt, dt_init=dt, dt_max=dt, adaptive=False, save_every=1, output_file="out.h5",
         include_screening=True, screening_tolerance=case["tol"], screening_step_size=alpha, screening_step_drag=beta,
-        max_iterations_per_step=case["maxit"], progress_interval=10**9, field_units=fu,
+        max_iterations_per_step=case["maxit"], progress_interval=10**9, field_units=fu, skip_time=(3 * dt if case.get("thermal") else 0.0),
     )
     solver = tdgl.TDGLSolver(dev, opts, **kw)
     si = SI(dev)
     calls = []
     orig = solver.get_induced_vector_potential
-    cur = {"step": -1}
+    cur = {"step": -1, "stage": 0}
     orig_update = solver.update
+    STAGE = 1000  # steps of the recorded stage are keyed as they are labelled; thermalisation steps are keyed -STAGE + step
 
     def update(state, running_state, dt_, **k):
-        cur["step"] = int(state["step"])
+        st = int(state["step"])
+        if case.get("thermal"):
+            if cur["stage"] == 0 and st < cur.get("last", -1):
+                cur["stage"] = 1  # the step counter restarted: recorded stage
+            cur["last"] = st
+            cur["step"] = st if cur["stage"] == 1 else st - STAGE
+        else:
+            cur["step"] = st
         return orig_update(state, running_state, dt_, **k)
 
     def wrapper(current_density, A_induced_vals, velocity):
@@ -267,6 +278,10 @@ def run_run(case):
     for step, its in sorted(by_step.items()):
         last_err = its[-1][5]
         returned = (step + 1) in labels
+        if step < 0:
+            # thermalisation step (no frames): it returned unless it is the step at which the run raised
+            returned = not (raised is not None and step == max(by_step))
+            res.count("thermalisation_steps")
         if returned:
             res.count("converged_steps")
             if not (last_err < case["tol"]):
@@ -282,7 +297,7 @@ def run_run(case):
     if raised is None and labels and labels[-1] != nsteps:
         res.violate("run-ended-early-without-error", detail={"labels": labels})
     # ---- stored potential reproduces the sum from stored currents -----------------------------
-    for fr in frames[1:]:
+    for fr in frames if case.get("thermal") else frames[1:]:
         F = np.asarray(fr["data"]["supercurrent"]) + np.asarray(fr["data"]["normal_current"])
         A = np.asarray(fr["data"]["induced_vector_potential"])
         A_ref = si.A_of(F)
